@@ -665,6 +665,39 @@ def rule_a1(ctx, F):
         ctx.floor("functions that empty %s.%s" % (rec, field), n, 3)
 
 
+def rule_borrowed(ctx, F):
+    """BP1: memory handed out by the caller's read callback is borrowed for one parse call only.
+    Lexer.chunk is written only from the callback's result or cleared; every parse call drops the pointer
+    left by the previous call before anything can read through it."""
+    from cstores import stores, writes_record
+    writers = {}
+    for fn in F.fn_list:
+        for pt, n, l, op in stores(fn):
+            if writes_record(l, "Lexer") == "chunk":
+                writers.setdefault(fn.name, []).append((pt, n))
+    allowed = {"ts_lexer__get_chunk": "from the read callback", "ts_lexer__clear_chunk": "NULL", "ts_lexer_init": "NULL"}
+    for name, sts in sorted(writers.items()):
+        if name in allowed:
+            ctx.ok("BP1", "Lexer.chunk:writer:" + name, "tabled writer of the borrowed chunk pointer (%s)" % allowed[name], nontrivial=False)
+        else:
+            ctx.bad("BP1", "Lexer.chunk:writer:" + name, "%s stores to Lexer.chunk; the borrowed chunk pointer may only come from the read callback (ts_lexer__get_chunk) or be cleared" % name,
+                    {"site": F.fns[name].loc(sts[0][0])})
+    ctx.floor("writers of Lexer.chunk", len(writers), 2)
+    fn = ctx.need_fn(F, "ts_lexer_set_input", "BP1")
+    if fn:
+        ctx.on_all_paths("BP1", "ts_lexer_set_input:drops-previous-chunk", fn, [pt for pt, n in find(fn, "ts_lexer__clear_chunk(self)")] + [pt for pt, n in find(fn, "self->chunk = NULL")],
+                         "a new parse call drops the chunk pointer the previous call left behind (the caller may have freed or moved that buffer)")
+    fn = ctx.need_fn(F, "ts_parser_parse", "BP1")
+    if fn:
+        use = [pt for pt, c in fn.calls() if callee_name(c) in ("ts_parser__advance", "ts_parser__balance_subtree")]
+        g = [pt for pt, c in fn.calls() if callee_name(c) == "ts_lexer_set_input"]
+        ctx.before("BP1", "ts_parser_parse:input-installed-before-lexing", fn, [p for p in use if any(callee_name(c) == "ts_parser__advance" for q, c in fn.calls() if q == p)], g,
+                   "every parse call (fresh or resumed) installs the input — and thereby drops the old chunk — before the parse loop runs")
+    fn = ctx.need_fn(F, "ts_lexer__get_lookahead", "BP1")
+    if fn:
+        pass
+
+
 def run(ctx):
     for cfg in configs(ctx):
         ctx.config = cfg
@@ -677,6 +710,7 @@ def run(ctx):
         rule_w1(ctx, F)
         rule_p1(ctx, F)
         rule_a1(ctx, F)
+        rule_borrowed(ctx, F)
     ctx.assumptions = ["an external scanner's serialize() writes at most TREE_SITTER_SERIALIZATION_BUFFER_SIZE bytes into the buffer it is given (documented contract; foreign code)",
                        "Clang/rustc front ends are faithful", "index counters tested with == against their bound only ever grow by one (DESIGN §3.6 (c))"]
     try:
